@@ -63,6 +63,40 @@ type c09Scenario struct {
 	EditFile int    `json:"unsaved_edit_in"` // -1 none
 	EditAdd  bool   `json:"unsaved_edit_adds"`
 	OpenAll  bool   `json:"all_open"`
+	// Extra include directives (from, to) on top of the tree: a file reachable along two paths
+	Extra [][2]int `json:"extra_includes,omitempty"`
+	// History before the requests: "" (documents just opened), "reanalyse" (the
+	// requesting document receives a change that leaves its text as it is: second
+	// analysis with warm caches), "discard" (the edited file was opened with its
+	// disk text, changed, and closed without saving; the requester stays open)
+	History string `json:"history,omitempty"`
+}
+
+// reach: files reachable from file a through include directives (a itself excluded unless on a cycle)
+func (sc c09Scenario) reach(a int) map[int]bool {
+	seen := map[int]bool{}
+	queue := []int{a}
+	for len(queue) > 0 {
+		y := queue[0]
+		queue = queue[1:]
+		next := func(k int) {
+			if !seen[k] && k != a {
+				seen[k] = true
+				queue = append(queue, k)
+			}
+		}
+		for k := 1; k < sc.N; k++ {
+			if sc.Parent[k] == y {
+				next(k)
+			}
+		}
+		for _, e := range sc.Extra {
+			if e[0] == y {
+				next(e[1])
+			}
+		}
+	}
+	return seen
 }
 
 const (
@@ -100,6 +134,11 @@ func (sc c09Scenario) journal(f, count int, sym string) *gmodel.Journal {
 	for k := 1; k < sc.N; k++ {
 		if sc.Parent[k] == f {
 			j.Entries = append(j.Entries, gmodel.Entry{Kind: gmodel.EntryInclude, Path: c09Files[k]})
+		}
+	}
+	for _, e := range sc.Extra {
+		if e[0] == f {
+			j.Entries = append(j.Entries, gmodel.Entry{Kind: gmodel.EntryInclude, Path: c09Files[e[1]]})
 		}
 	}
 	if sc.Decl == f {
@@ -201,6 +240,15 @@ func (sc c09Scenario) features(req int) string {
 			f = append(f, "unsaved edit in another open file")
 		}
 	}
+	if len(sc.Extra) > 0 {
+		f = append(f, "a file included along two paths")
+	}
+	switch sc.History {
+	case "reanalyse":
+		f = append(f, "requesting document analysed a second time")
+	case "discard":
+		f = append(f, "the edit was discarded by closing the file")
+	}
 	return strings.Join(f, ", ")
 }
 
@@ -209,20 +257,11 @@ func (sc c09Scenario) relation(req, x int) string {
 	if x == req {
 		return "requesting file"
 	}
-	// x below req?
-	y := x
-	for y > 0 {
-		y = sc.Parent[y]
-		if y == req {
-			return "file included by the requesting file"
-		}
+	if sc.reach(req)[x] {
+		return "file included by the requesting file"
 	}
-	y = req
-	for y > 0 {
-		y = sc.Parent[y]
-		if y == x {
-			return "file that includes the requesting file"
-		}
+	if sc.reach(x)[req] {
+		return "file that includes the requesting file"
 	}
 	return "sibling file"
 }
@@ -290,10 +329,27 @@ func c09Run(c *core.Ctx, dir string, sc c09Scenario, only *c09Case) {
 		s.Initialized()
 		wasOpen := open[req]
 		open[req] = true // the requesting document is open (with its editor text, = disk unless edited)
+		kept := false
+		savedEditor, savedOpen := editor[max(sc.EditFile, 0)], open[max(sc.EditFile, 0)]
+		if sc.History == "discard" && sc.EditFile >= 0 && sc.EditFile != req {
+			ef := sc.EditFile
+			s.DidOpen(uriOf(req), current(req).Text)
+			s.DidOpen(uriOf(ef), disk[ef].Text)
+			s.DidChangeFull(uriOf(ef), editor[ef].Text, 2)
+			if occ := c09Occurrences(current(req), req, sc.Kind, sym); len(occ) > 0 {
+				s.Call("textDocument/references", fmt.Sprintf(`{"textDocument":{"uri":%s},"position":{"line":%d,"character":%d},"context":{"includeDeclaration":true}}`, wire.Q(uriOf(req)), occ[0].Range.Start.Line, occ[0].Range.Start.Char))
+			}
+			s.DidClose(uriOf(ef))
+			editor[ef], open[ef] = disk[ef], false
+			kept = true
+		}
 		for f := 0; f < sc.N; f++ {
-			if open[f] {
+			if open[f] && !(kept && f == req) {
 				s.DidOpen(uriOf(f), current(f).Text)
 			}
+		}
+		if sc.History == "reanalyse" {
+			s.DidChangeFull(uriOf(req), current(req).Text, 2)
 		}
 		// documents whose editor text differs from what was opened first are changed (unsaved edit)
 		// expected set
@@ -364,8 +420,14 @@ func c09Run(c *core.Ctx, dir string, sc c09Scenario, only *c09Case) {
 						keyD := c09Loc{File: f, Range: l.Range, Decl: true}.String()
 						switch {
 						case wantSet[key].Range == l.Range && wantSet[key].File == f && !wantSet[key].Decl && hasKey(wantSet, key):
+							if gotSet[key] {
+								problems = append(problems, "occurrence listed twice in "+sc.relation(req, f))
+							}
 							gotSet[key] = true
 						case hasKey(wantSet, keyD):
+							if gotSet[keyD] {
+								problems = append(problems, "declaration listed twice in "+sc.relation(req, f))
+							}
 							gotSet[keyD] = true
 						default:
 							// is it an occurrence of some other in-scope / out-of-scope file's text attributed wrongly?
@@ -411,6 +473,9 @@ func c09Run(c *core.Ctx, dir string, sc c09Scenario, only *c09Case) {
 			}
 		}
 		open[req] = wasOpen
+		if sc.EditFile >= 0 {
+			editor[sc.EditFile], open[sc.EditFile] = savedEditor, savedOpen
+		}
 	}
 }
 
@@ -511,7 +576,7 @@ func checkC09(c *core.Ctx) {
 	if c.Thorough() {
 		maxN = 4
 	}
-	c.Bound("workspaces", fmt.Sprintf("1..%d files, every include tree rooted at main.journal, 0..2 occurrences per file (thorough: all placement vectors; quick: <= 1 file with 2), declaration in one file or none, workspace root on/off, one file with an unsaved edit that adds or removes an occurrence, or none", maxN))
+	c.Bound("workspaces", fmt.Sprintf("1..%d files, every include tree rooted at main.journal, 0..2 occurrences per file (thorough: all placement vectors; quick: <= 1 file with 2), declaration in one file or none, workspace root on/off, one file with an unsaved edit that adds or removes an occurrence, or none; small scenarios also after a second analysis of the requesting document and after the edit was discarded by closing; 3 graphs with a file included along two paths", maxN))
 	sampled := 0
 	for n := 1; n <= maxN; n++ {
 		for _, tree := range c09Trees(n) {
@@ -552,6 +617,16 @@ func checkC09(c *core.Ctx) {
 											}
 											sc := c09Scenario{N: n, Parent: tree, Kind: kind, Counts: append([]int(nil), counts...), Decl: decl, Root: root, EditFile: ef, EditAdd: add, OpenAll: openAll}
 											c09Run(c, dir, sc, nil)
+											if n >= 2 && (total <= 2 || c.Thorough()) {
+												// the same scenario from non-initial states
+												h := sc
+												h.History = "reanalyse"
+												c09Run(c, dir, h, nil)
+												if ef >= 0 {
+													h.History = "discard"
+													c09Run(c, dir, h, nil)
+												}
+											}
 											if sampled < 2 && n == 3 && ef >= 0 {
 												sampled++
 												c.Sample(sc)
@@ -571,6 +646,36 @@ func checkC09(c *core.Ctx) {
 				recCounts(0)
 				if c.Expired() {
 					return
+				}
+			}
+		}
+	}
+	// a file reachable along two include paths: its occurrences are listed once
+	diamonds := []c09Scenario{
+		{N: 3, Parent: []int{-1, 0, 1}, Extra: [][2]int{{0, 2}}},
+		{N: 4, Parent: []int{-1, 0, 0, 1}, Extra: [][2]int{{2, 3}}},
+		{N: 4, Parent: []int{-1, 0, 1, 2}, Extra: [][2]int{{0, 3}, {1, 3}}},
+	}
+	for _, d := range diamonds {
+		for _, kind := range []string{"account", "commodity", "payee"} {
+			for _, root := range []bool{false, true} {
+				for ef := -1; ef < d.N; ef++ {
+					for _, hist := range []string{"", "reanalyse"} {
+						if !c.Mine() {
+							continue
+						}
+						sc := d
+						sc.Kind, sc.Root, sc.EditFile, sc.EditAdd, sc.History = kind, root, ef, true, hist
+						sc.Counts = make([]int, d.N)
+						for f := range sc.Counts {
+							sc.Counts[f] = 1
+						}
+						sc.Decl = -1
+						if kind != "payee" {
+							sc.Decl = d.N - 1
+						}
+						c09Run(c, dir, sc, nil)
+					}
 				}
 			}
 		}
